@@ -32,6 +32,8 @@ def main():
             tier = args.pop(0)
         elif a == '--also':
             extra_props = args.pop(0).split(',')
+        elif a == '--no-pinned':
+            os.environ['VERIF_NO_PINNED'] = '1'
         else:
             names.append(a)
     if not names:
@@ -80,7 +82,7 @@ def main():
                 c = sh([os.path.join(HOME, 'check'), pr, '--tier', tier],
                        env=dict(os.environ, VERIF_REPO=scratch, VERIF_EVIDENCE_DIR=evdir, VERIF_REPLAY_DIR=os.path.join(evdir, 'replays')), cwd=HOME, timeout=7200)
                 viol = [l for l in c.stdout.splitlines() if l.startswith('VIOLATION')]
-                meta['checks'][pr] = {'tier': tier, 'exit': c.returncode, 'violation_lines': viol[:4], 'wall_s': round(time.time() - t0, 1)}
+                meta['checks'][pr] = {'tier': tier, 'pinned_inputs': not os.environ.get('VERIF_NO_PINNED'), 'exit': c.returncode, 'violation_lines': viol[:4], 'wall_s': round(time.time() - t0, 1)}
             rows.append(meta)
             own = meta['checks'].get(prop)
             print(name, 'suite_ok=%s demo=%s/%s' % (meta['unit_suite_passes'], meta['demo_exit_with_change'], meta['demo_exit_without_change']),
